@@ -390,18 +390,36 @@ impl Drop for Payload {
 
 type Handle = loom::sync::Arc<Payload>;
 
+/// A channel message; its `Drop` may perform a loom RMW (like a payload owning an Arc)
+pub struct Msg {
+    v: u64,
+    rmw: Option<usize>,
+    objs: *const SObjs,
+}
+
+impl Drop for Msg {
+    fn drop(&mut self) {
+        if let Some(a) = self.rmw {
+            // SAFETY: channels are declared before the atomics in SObjs (dropped first)
+            let o = unsafe { &*self.objs };
+            o.atomics[a].fetch_add(1, std::sync::atomic::Ordering::SeqCst);
+        }
+    }
+}
+
 pub struct SObjs {
     // `handles` first: fields drop in declaration order and a payload's `Drop` touches
     // `payload_drops` and `cells`
     handles: Vec<RefCell<Option<Handle>>>,
+    // channels before the atomics: a message's `Drop` may touch an atomic
+    tx: Vec<loom::sync::mpsc::Sender<Msg>>,
+    rx: Vec<RefCell<Option<loom::sync::mpsc::Receiver<Msg>>>>,
     atomics: Vec<AtomicUsize>,
     cells: Vec<loom::cell::UnsafeCell<u64>>,
     mutexes: Vec<loom::sync::Mutex<()>>,
     rwlocks: Vec<loom::sync::RwLock<()>>,
     condvars: Vec<loom::sync::Condvar>,
     notifies: Vec<loom::sync::Notify>,
-    tx: Vec<loom::sync::mpsc::Sender<u64>>,
-    rx: Vec<RefCell<Option<loom::sync::mpsc::Receiver<u64>>>>,
     payload_drops: RefCell<Vec<u64>>,
     tracks: Vec<RefCell<Option<loom::alloc::Track<u64>>>>,
     allocs: Vec<RefCell<Option<*mut u8>>>,
@@ -415,7 +433,7 @@ impl SObjs {
         let mut tx = vec![];
         let mut rx = vec![];
         for _ in 0..o.chans {
-            let (t, r) = loom::sync::mpsc::channel::<u64>();
+            let (t, r) = loom::sync::mpsc::channel::<Msg>();
             tx.push(t);
             rx.push(RefCell::new(Some(r)));
         }
@@ -640,7 +658,8 @@ fn exec_op(
         }
         K::Send { ch, v } => {
             // Ok/Err is deliberately not recorded: disconnection semantics are out of scope
-            let _ = o.tx[ch].send(v);
+            let m = Msg { v, rmw: prog.objs.chan_rmw.get(ch).copied().flatten(), objs: Rc::as_ptr(objs) };
+            let _ = o.tx[ch].send(m);
             Res::U
         }
         K::Recv { ch } => {
@@ -648,7 +667,7 @@ fn exec_op(
             let r = rx.recv();
             *o.rx[ch].borrow_mut() = Some(rx);
             match r {
-                Ok(v) => Res::Ok(v),
+                Ok(m) => Res::Ok(m.v),
                 Err(_) => Res::Err(0),
             }
         }
@@ -657,7 +676,7 @@ fn exec_op(
             let r = rx.try_recv();
             *o.rx[ch].borrow_mut() = Some(rx);
             match r {
-                Ok(v) => Res::Ok(v),
+                Ok(m) => Res::Ok(m.v),
                 Err(std::sync::mpsc::TryRecvError::Empty) => Res::Err(0),
                 Err(std::sync::mpsc::TryRecvError::Disconnected) => Res::Err(1),
             }
